@@ -191,6 +191,21 @@ func init() {
 		},
 		Custom: customC17,
 	})
+	addSpec(&Spec{ID: "C13", Title: "output depends only on an instance's own history; instances do not interfere", Level: "exploration",
+		Rule: "histories = seeded writer runs (and reads of their output) over P1-P5, all codecs, page sizes 1..1000; family 1: each history re-run after 4 different polluter prefixes, bytes/rows must equal its first run; " +
+			"family 2: the driver built with -race and the real bytebufferpool, G goroutines x N iterations each over own instances with Gosched/sleep injected at sink writes, outputs compared with sequential references, race reports counted from GORACE logs; " +
+			"family 3: the same against a shadow allocator replacing bytebufferpool (poison on Put, quarantine, poison verified on Get, stale capacity visible); " +
+			"distinct = (history, polluter) and interleaving signatures (goroutine switch sequence between sink writes); non-trivial = every repeated history; interleavings with >= 1 switch",
+		Require: []string{"family1_runs", "race_detector_processes", "shadow_allocator_processes", "shadow_cross_goroutine_handovers", "goroutine_switches_between_sink_writes", "repeated_histories", "shadow_reuses"},
+		RequireFn: func(r *Run) []string {
+			if r.M.Maxes["max_instances_in_flight"] < 2 {
+				return []string{"no two instances were ever in flight at the same time"}
+			}
+			return nil
+		},
+		TimeoutQuick: 1200,
+		Custom:       customC13,
+	})
 }
 
 func runCheck(prop, tier string, seed int64, only string) int {
